@@ -31,7 +31,8 @@ SIG_INDIRECT_RECORD = "rust-async:export:indirect-param-record-never-freed"
 TIERS = {
     # worlds, variants, native sets, miri jobs (world, variant), miri sets, valgrind worlds
     "quick": dict(worlds=6, variants="sieb", sets=12, release=False, miri=2, miri_sets=1, valgrind=0, valgrind_sets=0, wvariant_worlds=2),
-    "thorough": dict(worlds=100, variants="siebmw", sets=12, release=True, miri=10, miri_sets=2, valgrind=8, valgrind_sets=3, wvariant_worlds=100),
+    # (the builds dominate: ~5 crates per world; release profile for the first `release_worlds` worlds only)
+    "thorough": dict(worlds=60, variants="siebmw", sets=12, release=True, release_worlds=10, miri=10, miri_sets=2, valgrind=8, valgrind_sets=3, wvariant_worlds=100),
 }
 
 
@@ -73,8 +74,14 @@ def generate(seed, count, variants, wdir, replay=None):
     return idx
 
 
-def build(wdir, names, release=False, timeout=3000):
-    cmd = ["cargo", "build", "--offline", "--workspace", "--keep-going", "--message-format=short"]
+def build(wdir, names, release=False, timeout=6000, packages=None):
+    cmd = ["cargo", "build", "--offline", "--keep-going", "--message-format=short"]
+    if packages is None:
+        cmd.append("--workspace")
+    else:
+        for n in packages:
+            cmd += ["-p", n]
+        names = list(packages)
     if release:
         cmd.append("--release")
     rc, out, err = vcommon.sh(cmd, cwd=wdir, env=cargo_env(), timeout=timeout)
@@ -259,9 +266,12 @@ def run_pipeline(tier, seed, replay=None):
         dbg, dbgdir = build(wdir, names, release=False)
         rep.extra["build_debug_s"] = round(time.time() - t0, 1)
         rel, reldir = ({n: None for n in names}, None)
+        rel_names = set()
         if P["release"]:
             t0 = time.time()
-            rel, reldir = build(wdir, names, release=True)
+            rel_names = {w["name"] for w in ok if w["world_index"] < P.get("release_worlds", 10 ** 9)}
+            r2, reldir = build(wdir, names, release=True, packages=sorted(rel_names))
+            rel.update(r2)
             rep.extra["build_release_s"] = round(time.time() - t0, 1)
         compile_failures = []
         for n in names:
@@ -309,7 +319,7 @@ def run_pipeline(tier, seed, replay=None):
                     native_bad = True
                     continue
                 for prof, bdir in (("debug", dbgdir), ("release", reldir)):
-                    if bdir is None:
+                    if bdir is None or (prof == "release" and w["name"] not in rel_names):
                         continue
                     o = os.path.join(scratch, "%s-%s.json" % (w["name"], prof))
                     cmd = [os.path.join(bdir, w["name"]), "--seed", str(rs), "--sets", str(P["sets"]), "--world", w["name"], "--out", o]
@@ -353,7 +363,7 @@ def run_pipeline(tier, seed, replay=None):
                 o = os.path.join(scratch, "%s-vg.json" % n)
                 log = os.path.join(scratch, "%s-vg.log" % n)
                 cmd = ["valgrind", "--tool=memcheck", "--leak-check=full", "--show-leak-kinds=definite,indirect", "--errors-for-leak-kinds=definite,indirect",
-                       "--error-exitcode=0", "--log-file=" + log, os.path.join(reldir or dbgdir, n), "--seed", str(run_seed(widx)),
+                       "--error-exitcode=0", "--log-file=" + log, os.path.join(reldir if (reldir and n in rel_names) else dbgdir, n), "--seed", str(run_seed(widx)),
                        "--sets", str(P["valgrind_sets"]), "--world", n, "--out", o]
                 if refs.get(widx):
                     cmd += ["--ref", refs[widx]]
